@@ -291,6 +291,36 @@ def gen_particle(p, pol, depth, stack):
     return out
 
 
+def reprefix(root, prefix_of):
+    """the same infoset with other namespace prefixes: prefix_of = {namespace uri: prefix | None (default namespace)}.
+    Namespaces that carry attributes cannot be the default namespace (unprefixed attributes are in no namespace); the caller sees to that."""
+    nsmap = {p: u for u, p in prefix_of.items()}
+
+    def copy(el, parent):
+        new = etree.Element(el.tag, nsmap=nsmap) if parent is None else etree.SubElement(parent, el.tag)
+        new.text, new.tail = el.text, el.tail
+        for k, v in el.attrib.items():
+            new.set(k, v)
+        for c in el:
+            if isinstance(c.tag, str):
+                copy(c, new)
+        return new
+    return copy(root, None)
+
+
+ODD_PREFIX = {'ism': 'icism', 'sicommon': 'sc', 'sfa': 'geo'}
+
+
+def prefix_plans(root_ns, extra):
+    """[(name, {uri: prefix|None})] non-customary bindings of every namespace of a schema version: the root namespace bound to a
+    prefix instead of being the default one, and (SIDD) the ism / sicommon / sfa namespaces bound to other prefixes than the customary ones"""
+    plans = [('all-prefixed', dict([(root_ns, 'n0')] + [(u, ODD_PREFIX.get(k, 'p' + k)) for k, u in extra.items()]))]
+    if extra:
+        plans.append(('default-root+odd-prefixes', dict([(root_ns, None)] + [(u, ODD_PREFIX.get(k, 'p' + k)) for k, u in extra.items()])))
+        plans.append(('prefixed-root+customary', dict([(root_ns, 'sidd')] + [(u, k) for k, u in extra.items()])))
+    return plans
+
+
 # -------------------------------------------------------------------------------------------- bookkeeping repair
 
 def is_int(s):
